@@ -185,4 +185,11 @@ def r4_report(ctx):
     ctx.ob("C03.R4", "report-names-unfinished", any(fl), "the deadlock report is a filter of ExecutionState.tasks by !finished()", loc=rc.loc())
 
 
-RULES = [("C03.R1", r1_single_owner), ("C03.R2", r2_verdict_dependence), ("C03.R3", r3_block_implies_yield), ("C03.R4", r4_report)]
+def r5_no_stale_waker(ctx):
+    """A task whose wake-up went to an earlier poller's waker stays Sleeping although its result is there: the execution is then
+    reported as a deadlock that is none (same structural clause as C17.R5, decided here for the deadlock verdict)."""
+    from rules.c17 import fresh_waker_rule
+    fresh_waker_rule(ctx, "C03.R5", {"shuttle_engine", "shuttle_std", "shuttle"}, 2)
+
+
+RULES = [("C03.R1", r1_single_owner), ("C03.R2", r2_verdict_dependence), ("C03.R3", r3_block_implies_yield), ("C03.R4", r4_report), ("C03.R5", r5_no_stale_waker)]
